@@ -117,7 +117,9 @@ func genAckOnly(t *rapid.T) dhcpHistory {
 	nclients := rapid.IntRange(1, 6).Draw(t, "nclients")
 	for i := rapid.IntRange(1, 10).Draw(t, "nsteps"); i > 0; i-- {
 		c := rapid.IntRange(0, nclients-1).Draw(t, "c")
-		switch rapid.IntRange(0, 5).Draw(t, "step") {
+		switch rapid.IntRange(0, 6).Draw(t, "step") {
+		case 6: // the binding is given up: the file written after the next ACK (possibly a renewal of another lease) must not keep it
+			h.Ops = append(h.Ops, dOp{K: "decline", C: c, Req: "current"})
 		case 0, 1, 2, 3:
 			x := rapid.IntRange(0, 3).Draw(t, "xid")
 			nm, prl := rapid.IntRange(0, 2).Draw(t, "name"), rapid.IntRange(0, 4).Draw(t, "prl")
